@@ -49,6 +49,8 @@ def run(ctx):
     somes = [b for b, e in prims.ret_variants(gn) if e[0] == 'agg' and e[2] == 'Some']
     ctx.ob(len(somes) == 1 and guarded_any(gn, somes[0], [r'^\(.*\.timeout <= self\.current_time\)$']) and guarded_any(gn, somes[0], [r'^BinaryHeap::peek\(self\.operation_ack_timeouts\) is Some$']),
            'an operation is due when its deadline <= the engine clock', 'fire|predicate', loc=gn.loc())
+    rf = prims.rets_after(gn, [r'^BinaryHeap::peek\(self\.operation_ack_timeouts\) is Some$', r'^\(.*\.timeout <= self\.current_time\)$'])
+    ctx.ob(rf == {'Some'}, 'completeness: a record whose deadline has passed is always reported due (%s)' % sorted(rf or []), 'fire|complete', loc=gn.loc())
     pa = ctx.fn('ProtocolState::process_ack_timeouts')
     f = pa.calls('ProtocolState::complete_operation_as_failure')
     ctx.ob(len(f) == 1 and show(f[0].arg(2)) == 'GneissError::new_ack_timeout()' and show(f[0].arg(1)).startswith('(ProtocolState::get_next_ack_timeout(self))@Some.0'), 'a due operation fails with the ack-timeout error', 'fire|error', loc=pa.loc())
